@@ -22,7 +22,7 @@ def chain(op1, op2, prefix=''):
   h = 1
   targets = []
   for t, v in (op1, op2):
-    ar = dict(irm.VARIANTS[t])[v]
+    ar = irm.arity(t, v)
     ops.append(irm.op(t, v, [h] * ar))
     targets.append(len(ops) - 1)
     if t == 'SPLIT':
